@@ -408,6 +408,7 @@ func (st *State) enter(b *ssa.BasicBlock, pred *ssa.BasicBlock) {
 						}
 					}
 					st.nonnil["pendinghavocprefix:"+k] = true
+					st.nonnil["pendingloopprefix:"+k] = true
 					continue
 				}
 				if _, ok := vc.keySort[k]; ok {
@@ -461,7 +462,7 @@ func (st *State) enter(b *ssa.BasicBlock, pred *ssa.BasicBlock) {
 // pendingHavoc: a key that the loop may modify but that has no sort yet (never touched). Record so first use creates a post-havoc constant.
 func (vc *VC) pendingHavoc(st *State, key string) {
 	// We cannot declare without a sort; remember under a marker and resolve in State.get via heap0 miss.
-	st.nonnil["pendinghavoc:"+key] = true
+	st.nonnil["pendingloophavoc:"+key] = true
 }
 
 func (vc *VC) havocLocalsInLoop(st *State, li *loopInfo) {
@@ -726,6 +727,12 @@ func (st *State) step(in ssa.Instruction) {
 		}
 		if x.Object() != nil {
 			name := x.Object().Name()
+			// a local shadowing a parameter does not rebind the name contracts use for the parameter
+			for _, prm := range st.fr.fn.Params {
+				if prm.Name() == name && prm.Object() != x.Object() {
+					return
+				}
+			}
 			if x.IsAddr {
 				if pv, ok := st.fr.vals[x.X].(PtrV); ok {
 					st.fr.names["&"+name] = pv
